@@ -11,6 +11,12 @@ MAPS = [(None, (), (), False),
         ("p.Heading1 => h1.title\nr.Strong => b\ncomment-reference => span.c\np.Normal => !", ("Normal",), (), True),
         ("b => b\ni => i\nu => u\nstrike => del\np => div", (), (), False)]
 TAG = re.compile(r"<[^>]*>")
+LIVE_HEADER = """From Mammoth Require Import LiveSpec.
+Definition src_of (c : list (str * dpart) * bool * list (str * img_src) * api_opts * option (str * list str) * option (str * list str)) : source :=
+  let '(parts, named, linked, a, _, _) := c in mkSource (package_of parts) named linked.
+Definition chk_live c := live_agrees (src_of c).
+Definition chk_live_domain c := in_live_domain (src_of c).
+"""
 
 
 def html_text(s):
@@ -72,9 +78,14 @@ def run(ctx):
                 ctx.sample({"live_text": exp[:200], "html": html.value[:200]})
         terms.append(A.case_term(parts, False, {}, opts, html, raw))
         metas.append(meta)
-    for i in ctx.coq_eval("c01", A.HEADER, terms, A.CASE_TYPE, "chk_api", shard=12)[:5]:
+    for i in ctx.coq_eval("c01", A.HEADER + LIVE_HEADER, terms, A.CASE_TYPE, "chk_api", shard=12, more=("chk_live", "chk_live_domain"))[:5]:
         ctx.violation("correspondence", "model and implementation disagree",
                       dict(metas[i], obligation="correspondence Model/Api.v vs mammoth.convert_to_html / extract_raw_text"), False)
+    # the reader-half theorem's statement, evaluated: items of what the model reader returns = the Coq live-text specification
+    for i in ctx.more_bad["chk_live"][:5]:
+        ctx.violation("proof", "the elements the reader returns do not carry the live items of the body (Proofs/LiveSpec.v: live_agrees is false)",
+                      dict(metas[i], obligation="Props/C01.v: C01_reader_items evaluated on this package"), False)
+    dist["in_reader_theorem_domain"] = len(terms) - len(ctx.more_bad["chk_live_domain"])
     ctx.coverage["traces_validated_against_impl"] = len(terms)
     ctx.coverage["input_distribution"] = dist
     ctx.coverage["rule"] = ("packages from the full grammar (runs, hyperlinks, fields, sdt, ins/del, deleted paragraph marks, smart tags, text boxes, symbols, "
